@@ -443,7 +443,10 @@ class SwRig (object):
     self.ioloop = iow.RecocoIOLoop()
     self.ioloop.start()
     self.w.run()
-    self.budget = budget.Budget([sw.OFConnection.read, of._unpack_actions,
+    self.budget = budget.Budget([sw.OFConnection.read] +
+                                # (the loop itself, where read() is a wrapper)
+                                ([sw.OFConnection._read] if hasattr(sw.OFConnection, "_read") else []) +
+                                [of._unpack_actions,
                                  of._unpack_queue_props,
                                  of.ofp_queue_get_config_reply.unpack,
                                  of.ofp_stats_reply.unpack])
